@@ -47,6 +47,15 @@ NEEDS = {
  "C49-refresh-listener-none-attrs": "full reload of an object already in the identity map (refresh() without names / populate_existing), then an in-place mutation",
  "C49-set-unlinks-before-coerce": "assignment of a value the Mutable type rejects (ValueError caught by the application), then an in-place mutation of the old value",
  "C52-registry-plain-store": "scoped_session with scopefunc: two threads of one scope racing on first creation",
+ "C28-update-subclass-stops-at-first-base": "a class with two event-target bases that the event system first sees after listen() on the second base",
+ "C31-m2m-childdelete-order-merged": "many-to-many without backref whose parent is in a dependency cycle in that flush; a member removed from the collection and deleted in the same flush; immediate FK checks",
+ "C33-rollback-skips-prepared-state": "flush succeeds, the database refuses the COMMIT, then Session.rollback() / context-manager exit",
+ "C34-deleted-snapshot-after-event": "a persistent_to_deleted hook raising during the flush of a DELETE, then rollback, then get() / query of that identity",
+ "C36-history-original-passed-skips-identity-check": "one-to-one (deferred history) side: net-zero assignments (value taken away and put back; the row's own child assigned to the unloaded attribute)",
+ "C37-setitem-same-member-no-append": "index / extended-slice assignment of a list-collection member onto its own position (lst[i] = lst[i], swaps with i == j)",
+ "C39-cascade-visited-before-filters": "a pending child reachable from one parent through two relationships with refresh-expire cascade, the non-delete-orphan one declared first; then expire / refresh of the parent",
+ "C44-server-version-not-refetched": "server-side version counter on a table without RETURNING, expire_on_commit=False, A updates+commits, B updates+commits, A writes again",
+ "C52-default-registry-by-ident": "default (thread-local) scoped_session; a thread ends without remove(); a later thread gets the recycled thread identifier",
 }
 base = "/verif/seeded"
 for name in sorted(os.listdir(base)):
